@@ -52,6 +52,17 @@ def run(ctx, rep):
     # R1 tokenises with split_string
     ss = tf.calls_to("bytecode::instruction::split_string")
     rep.ob("C18.framing", "the transpiler tokenises arguments with split_string", "ok" if ss else "violated", "", tf.span, fn=tf.path)
+    # ... and what it tokenises is the text of the line itself: cut out of the line (split_once / slicing / trimming of line ends), never rewritten
+    CUTTING = rules.TRANSPARENT | {"core::str::<impl str>::split_once", "core::str::<impl str>::trim_end", "core::str::<impl str>::trim_start", "core::str::<impl str>::trim",
+                                   "core::str::<impl str>::trim_end_matches", "core::str::<impl str>::strip_suffix", "core::str::<impl str>::strip_prefix",
+                                   "core::option::Option::unwrap", "core::option::Option::expect", "alloc::string::String::as_str", "core::ops::index::Index::index",
+                                   "core::str::<impl str>::get", "core::str::<impl str>::split_at", rules.TRY_BRANCH}
+    for c in ss:
+        oc = rules.origin_calls(tf, op_local(c.args[0]), transparent=CUTTING) if op_local(c.args[0]) is not None else []
+        rewriting = [mir.short(x.callee()) for x in oc if not x.matches(("std::io::BufRead::read_line", "alloc::string::String::new", "core::str::<impl str>::split_once"))]
+        rep.ob("C18.framing", "the transpiler tokenises the text of the line as written (no rewriting between read_line and split_string)",
+               "violated" if rewriting else "ok", "the tokenised text goes through %s" % rewriting if rewriting else "", c.span, fn=tf.path,
+               key="C18.framing|transpile_file|line-text-unchanged")
     for c in ss:
         # the argument text is what follows the first space of the line
         o = rules.origin_calls(tf, op_local(c.args[0]), transparent=rules.TRANSPARENT | {rules.TRY_BRANCH})
